@@ -202,7 +202,7 @@ Theorem C06_programs :
     (forall l, deser (ser l) = Some l) ->
     forall (h : handle D Name) (ops : list hop) (r : rd Name),
     (forall d, In d (h_rgs h) -> nrows d = length (rows d)) ->
-    run deqb neqb rows nrows ser deser h ops r
+    run_prog deqb neqb rows nrows ser deser h ops r
     = spec_run neqb (h_cols h) (h_pcols h) (h_index h)
                (chunks (map nrows (h_rgs h)) (concat (map rows (h_rgs h)))) ops r.
 Proof. exact programs_spec. Qed.
@@ -212,7 +212,7 @@ Print Assumptions C06_programs.
    pf[::-1][1:] -> pickle -> iter_row_groups(columns=[c2, c1]) and head(4) of pf[-3:], computed by the model *)
 Example C06_nonvacuous :
   let h := mk_handle [[1;2;3]; []; [4]; [5;6]] [10; 11; 12] [20] [] in
-  let rn := run (list_eqb Nat.eqb) Nat.eqb (fun d : list nat => d) (@length nat)
+  let rn := run_prog (list_eqb Nat.eqb) Nat.eqb (fun d : list nat => d) (@length nat)
                 (fun l : list (list nat) => l) (fun b => Some b) in
   rn h [HSlice (mk_slice None None (Some (-1)%Z)); HSlice (mk_slice (Some 1%Z) None None); HPickle]
        (RIter (mk_ropts (Some [12; 10]) IdxFalse))
